@@ -282,6 +282,7 @@ func (fr *Frame) send(x *ssa.Send) {
 	ch := fr.get(x.Chan)
 	s.blocking++
 	s.logEvent("send", ch, fr.get(x.X))
+	s.log[len(s.log)-1].ArgT = []types.Type{x.X.Type()}
 }
 
 func (fr *Frame) recv(x *ssa.UnOp, ch Value) Value {
@@ -328,6 +329,7 @@ func (fr *Frame) selectStmt(x *ssa.Select) Value {
 			}
 		} else if i == idx {
 			s.logEvent("send", chv, fr.get(st.Send))
+			s.log[len(s.log)-1].ArgT = []types.Type{st.Send.Type()}
 		}
 	}
 	if idx == -1 {
